@@ -9,6 +9,7 @@ Property theorems only.  The rule (grammar, SI reading, written precision, judge
 translator reads from the database built by /repo's current source.
 -/
 import Barril.Proofs.CompoundLemmas
+import Barril.Proofs.CompoundAlgLemmas
 import Barril.Gen.ThmC06Posc
 import Barril.Gen.ThmCorePosc
 import Barril.Gen.Dbs
@@ -147,6 +148,37 @@ theorem sideValue_cons (f : Factor) (fs : List Factor) :
       (f.exp : Rat) * f.unit.prec + (sideValue fs).2) := rfl
 
 theorem sideValue_nil : sideValue [] = (1, 0) := rfl
+
+/-! ### the "equivalently" sentence: the product of the parts IS the magnitude of the composed Scalar -/
+
+/-- the factor of a row of the compact table is the arithmetic engine's `slope` of its symbol, i.e. (by
+`baseMag_simple`) what `Scalar(1, symbol)` amounts to in base units -/
+theorem posc_slope_is_engine_slope {s : Sym} {c : CRow} (h : lookL s poscC = some c) :
+    Alg.slope poscDb s = c.slope := slope_of_lookL posc_compact_is_table h
+
+/-- **C06, second sentence.**  For every row the grammar reads as a compound (recorded findings excepted),
+`factor(row) · E(base)` agrees, within the written precision, with
+`multipliers · Alg.mag poscDb (parts with their signed exponents)`.  `Alg.mag` of a composing-unit list is
+the amount in base units per unit of value of ANY Scalar with those composing units, and by C04's
+`mul_mag` / `div_mag` (closed under products and quotients by `opNew_closed`) that is what multiplying and
+dividing Scalars given in the component units produces; the left side is the amount of `Scalar(1, row)`
+(`posc_slope_is_engine_slope`, `baseMag_simple`).  So the named Scalar and the composed Scalar describe the
+same physical amount, to the precision the table is written in. -/
+theorem named_eq_composed {c : CRow} (hc : c ∈ poscC) (hk : c.sym ∉ c06KnownBad) {a b : List Factor}
+    (hr : reading (fun s => lookL s poscC) c = some (.compound a b)) :
+    ∃ t be bt, baseFactor (fun s => lookL s poscC) (fun q => baseL q poscC) c = some (be, bt) ∧
+      absQ (c.slope * be
+          - sidePre a / sidePre b * Alg.mag poscDb (sideEntries 1 a ++ sideEntries (-1) b))
+        ≤ (c.prec + t + bt)
+          * absQ (sidePre a / sidePre b * Alg.mag poscDb (sideEntries 1 a ++ sideEntries (-1) b)) := by
+  obtain ⟨e, t, be, bt, he, hb, _, _, hle⟩ := compound_rows_ok c hc hk _ hr
+  have hl := reading_factors_looked hr
+  have ha : ∀ f ∈ a, Alg.slope poscDb f.unit.sym = f.unit.slope :=
+    fun f hf => posc_slope_is_engine_slope (hl f (Or.inl hf))
+  have hb' : ∀ f ∈ b, Alg.slope poscDb f.unit.sym = f.unit.slope :=
+    fun f hf => posc_slope_is_engine_slope (hl f (Or.inr hf))
+  have := expected_eq_mag ha hb' he
+  exact ⟨t, be, bt, hb, this ▸ hle⟩
 
 /-! ### non-vacuity: the rule does read the rows the property names, and judges them -/
 
